@@ -369,3 +369,152 @@ def bounded_checks(tier, seed):
              "overloads, accessors, parameters, extension event order); statement templates nested in if TYPE_CHECKING / else / try / for / class / __init__",
              "bound": f"every compound template x every ordered pair of simple statements (19 x 19 x 14) + {n_random} random modules nested to depth 3",
              "cases": d["cases"], "failing": len(d["bad"]), "wall_s": round(time.time() - t0, 1), "violations": d["bad"]}]
+
+
+@contract("C01", "visitor.visit_classdef.span_events_scope", [VS + "visit_classdef"], floor=6, replay="replay_visitor", split=16)
+def c_visit_classdef(P):
+    """A class definition: span from the first decorator to the end of the definition, runtime flag, placed in the current scope under its name, announced
+    after it was placed, its body visited with the class as current scope, members-complete events after the body, scope restored."""
+    install_expr_str(P)
+    v, cur, ev, info = VF.mk_visitor(P)
+    G0 = info["G0"]
+    name = P.fresh_str("class_name")
+    DLN = z3.Function("DECORATOR_LINENO", IntS, IntS)
+    decorator_list = sym_seq(P, "decorator_list", lambda i: SObj("ast.expr", {"lineno": SInt(DLN(zint(i))), "end_lineno": SInt(DLN(zint(i)))},
+                                                                 ident=z3.Function("DECORATOR_NODE", IntS, IntS)(zint(i)), frozen=True))
+    bases = sym_seq(P, "bases", lambda i: SObj("ast.expr", {}, ident=z3.Function("BASE_NODE", IntS, IntS)(zint(i)), frozen=True))
+    node = VF.ast_node(P, "ast.ClassDef", "cdef", name=name, decorator_list=decorator_list, bases=bases, body=[SObj("ast.stmt", {}, ident=z3.Int("body0"), frozen=True)])
+    P.opaque_hooks["new:Decorator"] = lambda P_, a, k: SObj("Decorator", {"value": a[0], "lineno": k.get("lineno"), "endlineno": k.get("endlineno")}, ident=P_.new_ident())
+    from pyvc.models import SymSet
+    P.opaque_hooks[VS + "decorators_to_labels"] = lambda P_, a, k: SymSet(items=[], parts=[sym_seq(P_, "decorator_labels", lambda i: SStr(z3.Function("DECORATOR_LABEL", IntS, StrS)(zint(i))))])
+    calls = []
+
+    def safe_get_expression(P_, a, k):
+        calls.append((a[0] if a else k.get("node"), dict(k)))
+        return VF.expr_of(P_, a[0] if a else k.get("node"), "expression")
+    P.opaque_hooks["_griffe.agents.visitor:safe_get_expression"] = safe_get_expression
+    base_calls = []
+    P.opaque_hooks["_griffe.agents.visitor:safe_get_base_class"] = lambda P_, a, k: (base_calls.append(dict(k)), VF.expr_of(P_, a[0], "base"))[1]
+    body_scope = []
+    P.opaque_hooks[VS + "generic_visit"] = lambda P_, a, k: (body_scope.append(v.fields["current"]), ev.append(("generic_visit",)))[0] and None
+    P.expects["clause"] = "visit_classdef"
+    kind, res = outcome(P, lambda: call(P, VS + "visit_classdef", v, node))
+    if kind == "raise":
+        P.prove("never_raises", False, exc=P.resolve_cls(res))
+        return
+    kinds = [(e[1] if e[0] == "ext" else e[0]) for e in ev]
+    P.prove("placed_announced_body_visited_members_complete_in_this_order",
+            kinds == ["on_node", "on_class_node", "set_member", "on_instance", "on_class_instance", "generic_visit", "on_members", "on_class_members"], kinds=str(kinds))
+    sets = [e for e in ev if e[0] == "set_member"]
+    if len(sets) != 1:
+        return
+    _, recv, key, cls = sets[0]
+    nd = zint(decorator_list.len)
+    P.prove("placed_in_the_current_scope_under_its_name", recv is cur and key is name and cls.fields["name"] is name)
+    P.prove("is_a_class", P.resolve_cls(cls) == "Class")
+    P.prove("span_starts_at_the_first_decorator", zint(cls.fields["lineno"]) == z3.If(nd > 0, DLN(0), zint(node.fields["lineno"])))
+    P.prove("span_ends_with_the_definition", cls.fields["endlineno"] is node.fields["end_lineno"])
+    P.prove("runtime_flag_is_not_type_guarded", zbool(cls.fields["runtime"]) == z3.Not(G0))
+    P.prove("body_is_visited_with_the_class_as_scope", len(body_scope) == 1 and body_scope[0] is cls)
+    P.prove("scope_restored", v.fields["current"] is cur)
+    for e in ev:
+        if e[0] == "ext" and e[1] in ("on_instance", "on_class_instance", "on_members", "on_class_members"):
+            P.prove("events_carry_the_placed_class", (e[2].get("obj") or e[2].get("cls")) is cls)
+    P.prove("decorators_and_bases_are_never_parsed_as_string_annotations", all(k.get("parse_strings") is False for _, k in calls), calls=len(calls))
+    P.cover("visit_classdef")
+
+
+BUILTIN_DECORATORS = {"property": "property", "staticmethod": "staticmethod", "classmethod": "classmethod"}
+STDLIB_DECORATORS = {"abc.abstractmethod": {"abstractmethod"}, "functools.cache": {"cached"}, "functools.cached_property": {"cached", "property"},
+                     "cached_property.cached_property": {"cached", "property"}, "functools.lru_cache": {"cached"}, "dataclasses.dataclass": {"dataclass"}}
+
+
+@contract("C01", "visitor.decorators_to_labels.table", [VS + "decorators_to_labels"], floor=2, replay="replay_visitor")
+def c_decorators_to_labels(P):
+    """Labels are exactly the union, over the decorators, of the documented label set of each decorator's callable path (bounded: <= 2 decorators, symbolic paths)."""
+    v, cur, ev, info = VF.mk_visitor(P)
+    n = z3.Int("n_decorators")
+    P.assume(z3.And(n >= 0, n <= 2))
+    size = 0 if P.branch(n == 0) else (1 if P.branch(n == 1) else 2)
+    paths = [P.fresh_str(f"callable_path{i}") for i in range(size)]
+    decs = [SObj("Decorator", {"callable_path": p}, ident=z3.Int(f"decorator{i}"), frozen=True) for i, p in enumerate(paths)]
+    kind, res = outcome(P, lambda: call(P, VS + "decorators_to_labels", v, decs))
+    if kind == "raise":
+        P.prove("never_raises", False, exc=P.resolve_cls(res))
+        return
+    table = dict({k: {val} for k, val in BUILTIN_DECORATORS.items()}, **STDLIB_DECORATORS)
+    all_labels = sorted({l for s in table.values() for l in s})
+    for lab in all_labels:
+        want = z3.Or(*[z3.Or(*[p.z == z3.StringVal(path) for path, labs in table.items() if lab in labs]) for p in paths]) if paths else z3.BoolVal(False)
+        got = models.contains(P, res, lab)
+        P.prove("label_present_iff_some_decorator_gives_it:" + lab, zbool(got) == want)
+    P.cover("decorators_to_labels")
+
+
+@contract("C01", "visitor.visit_module.events_scope", [VS + "visit_module"], floor=3, replay="replay_visitor")
+def c_visit_module(P):
+    """The module object is created first, announced, becomes the current scope for its body, and its members-complete events come last."""
+    v, cur, ev, info = VF.mk_visitor(P)
+    for f, val in (("module_name", P.fresh_str("module_name")), ("filepath", Opaque("lenient:path")), ("parent", None), ("lines_collection", Opaque("lines")),
+                   ("modules_collection", Opaque("modules"))):
+        v.fields[f] = val
+    node = VF.ast_node(P, "ast.Module", "mod", body=[SObj("ast.stmt", {}, ident=z3.Int("body0"), frozen=True)])
+    scope = []
+    P.opaque_hooks[VS + "generic_visit"] = lambda P_, a, k: (scope.append(v.fields["current"]), ev.append(("generic_visit",)))[0] and None
+    created = []
+    P.opaque_hooks["new:Module"] = lambda P_, a, k: (created.append(SObj("Module", dict(k, name=k.get("name", a[0] if a else None)), ident=P_.new_ident())), created[-1])[1]
+    kind, res = outcome(P, lambda: call(P, VS + "visit_module", v, node))
+    if kind == "raise":
+        P.prove("never_raises", False, exc=P.resolve_cls(res))
+        return
+    kinds = [(e[1] if e[0] == "ext" else e[0]) for e in ev]
+    P.expects["clause"] = "visit_module"
+    P.prove("announced_then_body_then_members_complete", kinds == ["on_node", "on_module_node", "on_instance", "on_module_instance", "generic_visit", "on_members", "on_module_members"], kinds=str(kinds))
+    P.prove("one_module_object_named_after_the_module", len(created) == 1 and created[0].fields.get("name") is v.fields["module_name"])
+    if len(created) == 1:
+        m = created[0]
+        P.prove("body_is_visited_with_the_module_as_scope", scope == [m] and v.fields["current"] is m)
+        P.prove("events_carry_the_module", all((e[2].get("obj") or e[2].get("mod")) is m for e in ev if e[0] == "ext" and e[1] not in ("on_node", "on_module_node")))
+        P.prove("docstring_is_the_module_docstring", m.fields.get("docstring") is None or isinstance(m.fields.get("docstring"), (SObj, SUnion)))
+    P.cover("visit_module")
+
+
+@contract("C01", "visitor.get_base_property.table", [VS + "get_base_property"], floor=3, replay="replay_visitor", split=16)
+def c_get_base_property(P):
+    """A function is a property accessor iff one of its decorators is <its own path>.setter / .deleter and the member of that name is a property
+    (bounded: <= 2 decorators, symbolic paths); the answer is that accessor kind."""
+    v, cur, ev, info = VF.mk_visitor(P)
+    n = z3.Int("n_decorators")
+    P.assume(z3.And(n >= 0, n <= 2))
+    size = 0 if P.branch(n == 0) else (1 if P.branch(n == 1) else 2)
+    paths = [P.fresh_str(f"callable_path{i}") for i in range(size)]
+    decs = [SObj("Decorator", {"callable_path": p}, ident=z3.Int(f"decorator{i}"), frozen=True) for i, p in enumerate(paths)]
+    fpath = P.fresh_str("function_path")
+    fname = P.fresh_str("function_name")
+    fn = SObj("Function", {"path": fpath, "name": fname}, ident=z3.Int("function_id"), frozen=True)
+    P.attr_hooks[("Function", "path")] = lambda P_, o: o.fields["path"]
+    is_prop = z3.Bool("member_is_a_property")
+    missing = z3.Bool("member_missing")
+    member = SObj("Attribute", {}, ident=z3.Int("member_id"), frozen=True)
+    P.attr_hooks[("Attribute", "has_labels")] = lambda P_, o: BoundMethod(o, lambda P__, s_, a, k: SBool(is_prop))
+
+    P.assume(missing == z3.Not(info["HAS"](fname.z)))      # get_member(name) fails exactly when the scope has no such member (C16)
+
+    def get_member(P_, a, k):
+        if P_.branch(missing):
+            raise PyExc(P_.mk_exc("KeyError", "no such member"))
+        return member
+    P.opaque_hooks["_griffe.mixins:GetMembersMixin.get_member"] = get_member
+    kind, res = outcome(P, lambda: call(P, VS + "get_base_property", v, decs, fn))
+    acc = [z3.Or(p.z == z3.Concat(fpath.z, z3.StringVal(".setter")), p.z == z3.Concat(fpath.z, z3.StringVal(".deleter"))) for p in paths]
+    P.expects["clause"] = "handle_function"
+    if kind == "raise":
+        P.prove("never_raises", False, exc=P.resolve_cls(res))
+        return
+    want_some = z3.And(z3.Or(*acc) if acc else z3.BoolVal(False), z3.Not(missing), is_prop)
+    if res is None:
+        P.prove("none_iff_no_decorator_is_an_accessor_of_a_property", z3.Not(want_some))
+    else:
+        P.prove("an_accessor_kind_only_for_an_accessor_of_a_property", want_some)
+        P.prove("the_kind_is_setter_or_deleter", z3.Or(zstr(res) == z3.StringVal("setter"), zstr(res) == z3.StringVal("deleter")))
+    P.cover("get_base_property")
